@@ -1,6 +1,7 @@
 import PycsepVerif.Proto
 import PycsepVerif.Model.Readers
 import PycsepVerif.Model.ReaderText
+import PycsepVerif.Model.NdkMagnitude
 /-
   Driver ops of C19 (records are `;`-separated, fields `~`-separated, `-` = no records, `H` = header line).
     c19_csep   lon~lat~mag~Y~M~D~h~mi~s~us~depth
@@ -93,6 +94,14 @@ def handle : List String → Option String
   -- c19_text_noquote: the older line-splitting model of csep_ascii (no quoting; `outside` on a quote character)
   | ["c19_text_noquote", hex] => some (match ReaderText.csepFile (unhex hex.toList) with
       | some r => showResult r | none => "outside")
+  -- c19_ndk_mw <hex> : ndk(fname) from characters to events WITH the moment magnitude 2/3(log10 M0 - 9.1) computed in the
+  -- model's real layer at Float (bit pattern of the double in the last field)
+  | ["c19_ndk_mw", hex] => some (match NdkMagnitude.ndkFileMw (α := Float) (unhex hex.toList) with
+      | some (.ok es) => "ok:" ++ ";".intercalate (es.map (fun e =>
+          "~".intercalate [toString e.time, showRat e.lat, showRat e.lon, showRat e.depth, toString e.mw.toBits]))
+      | some (.error .badTime) => "err:badTime"
+      | some (.error .badRow) => "err:badRow"
+      | none => "outside")
   | ["c19_text", fmt, hex] => some (match textModel fmt (unhex hex.toList) with
       | some (some r) => showResult r | some none => "outside" | none => "bad-op")
   | ["c19_text", fmt] => some (match textModel fmt [] with
